@@ -98,8 +98,26 @@ func Instrs(fn *ssa.Function, f func(ssa.Instruction)) {
 // WithClosures returns fn and all anonymous functions nested in it.
 func WithClosures(fn *ssa.Function) []*ssa.Function {
 	out := []*ssa.Function{fn}
+	seen := map[*ssa.Function]bool{fn: true}
 	for i := 0; i < len(out); i++ {
-		out = append(out, out[i].AnonFuncs...)
+		for _, a := range out[i].AnonFuncs {
+			if !seen[a] {
+				seen[a] = true
+				out = append(out, a)
+			}
+		}
+		// closures made by code that was folded into this function (second view): they belong to the
+		// helper they were written in, but are created here
+		for _, b := range out[i].Blocks {
+			for _, ins := range b.Instrs {
+				if mc, ok := ins.(*ssa.MakeClosure); ok {
+					if a, ok := mc.Fn.(*ssa.Function); ok && !seen[a] {
+						seen[a] = true
+						out = append(out, a)
+					}
+				}
+			}
+		}
 	}
 	return out
 }
